@@ -605,6 +605,11 @@ def check_coo(ctx, r, lines, expect, meta):
     src = f'bqm = dimod.BinaryQuadraticModel({lin!r}, {quad!r}, {r.choice([0.0, 1.5])!r}, {vt!r})'
     hdr = r.random() < .5
     code = f"new = coo.loads(coo.dumps(bqm, vartype_header={hdr}){'' if hdr else ', vartype=bqm.vartype'})"
+    if r.random() < .4:
+        # r8f: the file-object pair `dump` / `load` (a text stream), which must read back what `dumps` / `loads` do
+        code = (f"import io\nfp = io.StringIO()\ncoo.dump(bqm, fp, vartype_header={hdr})\nfp.seek(0)\n"
+                f"new = coo.load(fp{'' if hdr else ', vartype=bqm.vartype'})\nassert fp.getvalue().rstrip('\\n') == coo.dumps(bqm, vartype_header={hdr}).rstrip('\\n')")
+        ctx.tick('coo dump/load through a text stream')
     env = run_route(src, code)
     bqm, new = env['bqm'], env['new']
     ctx.tick('coo'); ctx.case(('coo', src, hdr), nontrivial=bool(lin or quad))
@@ -837,6 +842,74 @@ def check_graph(ctx, r):
                      repro=PRE + src + '\n' + code2 + '\nassert view_ok', detail=dict(source=src, route=code2))
 
 
+# ------------------------------------------------------------------ r8f: round trip -> in-place mutation -> round trip again, on ONE object
+
+def check_history(ctx, r):
+    """A serialiser / pickler / copier that keeps anything on the object (a cached document, label list, packed words, reduce tuple)
+    answers from a stale state once the object has been edited in place.  One object, 2-4 rounds of (route, in-place edit); after every
+    route the result must reproduce the object AS IT IS NOW (public accessors), and the object itself must be as the edits left it."""
+    kind = r.choice(['bqm', 'ss'])
+    if kind == 'bqm':
+        src, cls = gen_bqm_src(r)
+        name, routes, tab = 'bqm', [x for x in BQM_ROUTES if not (cls == 'DictBQM' and 'bytes' in x[0])], bqm_table
+    else:
+        src = gen_ss_src(r)
+        src = src[0] if isinstance(src, tuple) else src
+        name, routes, tab = 'ss', SS_ROUTES, ss_table
+    try:
+        env = run_route(src, 'pass')
+    except Exception:  # noqa
+        return
+    obj = env[name]
+    hist = [src]
+    for step in range(r.randint(2, 4)):
+        rname, code = r.choice(routes)
+        before = tab(obj)
+        try:
+            with warnings.catch_warnings():
+                warnings.simplefilter('ignore')
+                exec(code, env)
+            got = tab(env['new']); err = None
+        except Exception as e:  # noqa
+            got = None; err = e
+        ctx.tick(f'history {kind} {rname}' + (' after in-place edits' if step else ''))
+        ctx.case(('history', kind, rname, step, '\n'.join(hist)), nontrivial=step > 0 and len(obj.variables) > 0)
+        site = ('BQM ' if kind == 'bqm' else 'SampleSet ') + rname
+        if got != before or tab(obj) != before:
+            what = (f'{type(err).__name__}: {err}' if err is not None else
+                    f'round trip after in-place edits gives {got!r}, the object holds {before!r}' if got != before else f'the route changed the object: {before!r} -> {tab(obj)!r}')
+            tname = 'bqm_table' if kind == 'bqm' else 'ss_table'
+            ctx.fail('property', site, 'one object: round trip, in-place edit, round trip again', what,
+                     repro=PRE + '\n'.join(hist) + f'\nbefore = {tname}({name})\n' + code + f'\nassert {tname}(new) == before == {tname}({name}), ({tname}(new), before)',
+                     detail=dict(source='\n'.join(hist), route=code))
+            return
+        hist.append(code)
+        labs = list(obj.variables)
+        v = r.choice(labs) if labs else 'zz'
+        w = r.choice(labs) if labs else 'zz'
+        if kind == 'bqm':
+            other = 'SPIN' if obj.vartype is dimod.BINARY else 'BINARY'
+            edits = [f"bqm.relabel_variables({{{lsrc(v)}: 'RL{step}'}}, inplace=True)", f"bqm.relabel_variables({{{lsrc(v)}: {lsrc(w)}, {lsrc(w)}: {lsrc(v)}}}, inplace=True)",
+                     f"bqm.add_variable('NV{step}', 1.5)", f'bqm.add_quadratic({lsrc(v)}, {lsrc(w)}, 0.25)', f'bqm.remove_variable({lsrc(v)})',
+                     f'bqm.change_vartype({other!r}, inplace=True)', 'bqm.offset += 0.5', 'bqm.scale(2)', f'bqm.fix_variable({lsrc(v)}, 1)', f'bqm.flip_variable({lsrc(v)})',
+                     f'bqm.set_linear({lsrc(v)}, 3.0)', f'bqm.remove_interaction({lsrc(v)}, {lsrc(w)})', 'bqm.relabel_variables_as_integers(inplace=True)',
+                     f'bqm.linear[{lsrc(v)}] = -2.5', f'bqm.add_linear_from({{{lsrc(v)}: 1.0}})', f'bqm.contract_variables({lsrc(v)}, {lsrc(w)})']
+        else:
+            other = {'SPIN': 'BINARY', 'BINARY': 'SPIN'}.get(obj.vartype.name, obj.vartype.name)
+            edits = [f"ss.relabel_variables({{{lsrc(v)}: 'RL{step}'}}, inplace=True)", f"ss.relabel_variables({{{lsrc(v)}: {lsrc(w)}, {lsrc(w)}: {lsrc(v)}}}, inplace=True)",
+                     f'ss.change_vartype({other!r}, inplace=True)', f'ss.change_vartype({other!r}, energy_offset=1.5, inplace=True)', 'ss.record.energy[0] += 1.0',
+                     'ss.record.sample[0, 0] = 1', 'ss.record.num_occurrences[-1] += 2', f"ss.info['added{step}'] = [1, 2]", 'ss.record.sample[:, -1] = 1']
+        for e in r.sample(edits, r.randint(1, 2)):
+            try:
+                with warnings.catch_warnings():
+                    warnings.simplefilter('ignore')
+                    exec(e, env)
+                hist.append(e)
+            except Exception:  # noqa: not applicable to this object
+                hist.append(f'try:\n    {e}\nexcept Exception:\n    pass')
+        obj = env[name]
+
+
 def run(ctx):
     r = ctx.rng
     ctx.rule = ('random BQMs (3 classes, 8 label pools incl. nested tuples, floats and unsortable mixes, isolated variables, zero biases) x 8 routes; '
@@ -844,24 +917,27 @@ def run(ctx):
                 'with arrays) x 8 routes; bit packing for widths around multiples of 32; ndarray (de)serialisation for 8 dtypes and 8 shapes; '
                 'labels; COO (triples, and at text level: written text character for character, loader on written and hand-mutated lines).  A case = one object through one route; non-trivial = the object is not empty')
     lines, expect, meta = [], [], []
-    for _ in range(ctx.scale(600, 8000)):
+    # r8f: quick-tier volumes trimmed by a quarter (79 s wall on the merged tree); every generator still runs, the volume lives in the thorough tier
+    for _ in range(ctx.scale(450, 8000)):
         check_bqm(ctx, r, lines, expect, meta)
-    for _ in range(ctx.scale(600, 8000)):
+    for _ in range(ctx.scale(450, 8000)):
         check_ss(ctx, r, lines, expect, meta)
-    for _ in range(ctx.scale(800, 8000)):
+    for _ in range(ctx.scale(600, 8000)):
         check_pack(ctx, r, lines, expect, meta)
-    for _ in range(ctx.scale(800, 8000)):
+    for _ in range(ctx.scale(600, 8000)):
         check_ndarray(ctx, r, lines, expect, meta)
-    for _ in range(ctx.scale(800, 8000)):
+    for _ in range(ctx.scale(600, 8000)):
         check_labels(ctx, r, lines, expect, meta)
-    for _ in range(ctx.scale(500, 8000)):
+    for _ in range(ctx.scale(400, 8000)):
         check_info(ctx, r, lines, expect, meta)
-    for _ in range(ctx.scale(800, 8000)):
+    for _ in range(ctx.scale(600, 8000)):
         check_coo(ctx, r, lines, expect, meta)
-    for _ in range(ctx.scale(1200, 12000)):
+    for _ in range(ctx.scale(900, 12000)):
         check_graph(ctx, r)
+    for _ in range(ctx.scale(400, 6000)):
+        check_history(ctx, r)
     tlines, texpect, tmeta = [], [], []
-    for _ in range(ctx.scale(800, 8000)):
+    for _ in range(ctx.scale(600, 8000)):
         check_coo_text(ctx, r, tlines, texpect, tmeta)
     try:
         got = run_driver('packdriver', lines)
